@@ -31,7 +31,15 @@ where
             1u32.into(),
         );
 
-        let lvl_1_ks: usize = self.glwe_keyswitch_tmp_bytes_default(glwe_infos, glwe_infos, key_infos);
+        // The key-switch input is the temporary taken by `glwe_from_lwe_default`, not `res`:
+        // it lives in the key radix, has rank 1 and carries every limb of the LWE.
+        let ks_in_infos: GLWELayout = GLWELayout {
+            n: key_infos.n(),
+            base2k: key_infos.base2k(),
+            k: lwe_infos.max_k(),
+            rank: 1u32.into(),
+        };
+        let lvl_1_ks: usize = self.glwe_keyswitch_tmp_bytes_default(glwe_infos, &ks_in_infos, key_infos);
         let lvl_1_a_conv: usize = if lwe_infos.base2k() == key_infos.base2k() {
             0
         } else {
